@@ -505,13 +505,15 @@ static void cx_deliver(struct cx *c, int mode, const uint8_t *msg, size_t len, s
 		static uint8_t stream[70002]; size_t sl = len + 2, at = 0;
 		stream[0] = (uint8_t)(len >> 8); stream[1] = (uint8_t)len; memcpy(stream + 2, msg, len);
 		size_t cuts[3] = { cut1, cut2, sl };
+		/* the connection our stream goes to; the resolver may drop / replace it (then there is nothing to wait for) */
+		struct nameserver *ns0 = c->dns->server_head; struct bufferevent *bev0 = (ns0 && ns0->connection) ? ns0->connection->bev : NULL;
 		for (int i = 0; i < 3; i++) {
 			size_t to = cuts[i] > sl ? sl : cuts[i];
 			if (to <= at) continue;
 			if (dp_write_all(c->csock, stream + at, to - at) < 0) break;    /* peer closed: fine */
 			at = to;
 			int fd = ns_tcp_fd(c);
-			if (fd >= 0) dp_wait_fd(fd, POLLIN, 2000);
+			if (fd >= 0 && bev0 && c->dns->server_head->connection->bev == bev0) dp_wait_fd(fd, POLLIN, 2000);
 			event_base_loop(c->eb, EVLOOP_NONBLOCK);
 			event_base_loop(c->eb, EVLOOP_NONBLOCK);
 		}
